@@ -152,7 +152,7 @@ def run_inst(spec, run):
             viol.append(z3.Or(t < lo, t > hi) if mu != "contain_strict" else z3.Or(t <= lo, t > hi))
         run.obligation(ctx, "unmentioned-bounds-contain", z3.Or(viol) if viol else z3.BoolVal(False), conc)
         run.validate(ctx, conc, lambda m: {"r1": [S.model_int(m, r1.lower), S.model_int(m, r1.upper)],
-                                           "r2": [S.model_int(m, r2.lower), S.model_int(m, r2.upper)]})
+                                           "r2": [S.model_int(m, r2.lower), S.model_int(m, r2.upper)]}, extremes=plh.extremes(env))
         run.sample({"model": pl.show(model_spec), "assumed": spec["assumed"], "path_condition": [str(z3.simplify(c)) for c in ctx.pc][:6]})
 
     st = S.explore(fn, on_path, max_paths=8000, wall=900)
